@@ -292,8 +292,10 @@ def check_c14(idx: Index, tier: str, res: Result) -> None:
               key="QUERY/Model.agent/shape")
     cnt = idx.func(MODEL, "Model.agent_count")
     rets = [n for n in walk_no_nested(cnt.node) if isinstance(n, ast.Return)]
+    ids = idx.func(MODEL, "Model.agent_ids")
+    ids_ok = any(isinstance(n, ast.Return) and src(n.value) == "self.agent_type_map[agent_type]" for n in walk_no_nested(ids.node))
     ok = len(rets) == 1 and isinstance(rets[0].value, ast.Call) and call_name(rets[0].value) == "len" \
-        and "agent_type_map[agent_type]" in src(rets[0].value)
+        and ("agent_type_map[agent_type]" in src(rets[0].value) or (ids_ok and src(rets[0].value.args[0]) == "self.agent_ids(agent_type)"))
     res.check("QUERY", "agent_count = len(agent_type_map[type])", ok, cnt.loc(), cnt.qual, norm_stmt(rets[0]) if rets else "",
               "agent_count is not the length of the per-type id list", key="QUERY/Model.agent_count/shape")
     # agent_count_per_state counts once per id of the type whose state matches
@@ -793,7 +795,12 @@ def check_c12(idx: Index, tier: str, res: Result) -> None:
 
     # ---- ORDER in run_step -------------------------------------------------------
     mp = params(rs.node)[1]
-    body_loops = [n for n in rs.node.body if isinstance(n, ast.For) and (dotted(n.iter) or "") == "%s.agents" % mp]
+    def _agents_iter(it: ast.AST) -> bool:
+        # the live list or a snapshot of it in list order (list()/tuple()); reversed()/sorted() change the order
+        if isinstance(it, ast.Call) and call_name(it) in ("list", "tuple") and len(it.args) == 1:
+            it = it.args[0]
+        return (dotted(it) or "") == "%s.agents" % mp
+    body_loops = [n for n in rs.node.body if isinstance(n, ast.For) and _agents_iter(n.iter)]
     res.check("ORDER", "agents visited in list (creation) order", len(body_loops) == 1, rs.loc(), rs.qual,
               "for agent in %s.agents" % mp, "the agent loop does not iterate directly over model.agents (creation order)",
               key="ORDER/run_step/agent-iteration")
@@ -1238,6 +1245,10 @@ def check_c13(idx: Index, tier: str, res: Result) -> None:
     res.check("KEYS", "frame built from states[state][property][type] and ['count']", okr, gdf.loc(), gdf.qual,
               "; ".join(sorted({src(n) for n in reads}))[:160], "the frame is not filled from the collector's cells", key="KEYS/get_df_for_agent/reads")
     rets = [n for n in gdf.node.body if isinstance(n, ast.Return)]
-    okf = bool(rets) and isinstance(rets[-1].value, ast.Call) and call_name(rets[-1].value) == "fillna" and const_int(rets[-1].value.args[0]) == 0
+    fa = rets[-1].value if rets else None
+    fv = None
+    if isinstance(fa, ast.Call) and call_name(fa) == "fillna":
+        fv = fa.args[0] if fa.args else next((k.value for k in fa.keywords if k.arg == "value"), None)
+    okf = fv is not None and const_int(fv) == 0
     res.check("FILL", "empty states are reported as 0", okf, gdf.loc(rets[-1]) if rets else gdf.loc(), gdf.qual,
               norm_stmt(rets[-1]) if rets else "", "the frame is not zero-filled where a state was empty", key="FILL/get_df_for_agent/fillna")
